@@ -2,11 +2,11 @@
 # tools/runall.sh <tier> [ids...]   - runs the checks one after another on the current /repo tree and prints a summary
 TIER=${1:-quick}; shift
 IDS=${@:-C01 C02 C03 C04 C05 C06 C07 C08 C09 C10 C11 C12 C13 C14 C15 C16 C17 C18 C19 C20}
-cd /verif || exit 2
+cd "$(dirname "$0")/.." || exit 2
 git -C /repo status --short | grep -q . && { echo "/repo has uncommitted changes"; exit 2; }
 for id in $IDS; do
   s=$(date +%s)
-  bin/check $id $TIER > /tmp/runall_$id.log 2>&1; rc=$?
+  bin/check $id $TIER > /tmp/runall_${TIER}_$id.log 2>&1; rc=$?
   e=$(date +%s)
-  echo "$id $TIER exit=$rc wall=$((e-s))s $(grep -c '^VIOLATION' /tmp/runall_$id.log) violations $(grep -c '^KNOWN-FINDING' /tmp/runall_$id.log) known  | $(tail -1 /tmp/runall_$id.log | cut -c1-150)"
+  echo "$id $TIER exit=$rc wall=$((e-s))s $(grep -c '^VIOLATION' /tmp/runall_${TIER}_$id.log) violations $(grep -c '^KNOWN-FINDING' /tmp/runall_${TIER}_$id.log) known  | $(tail -1 /tmp/runall_${TIER}_$id.log | cut -c1-150)"
 done
